@@ -407,3 +407,30 @@ def show(e, fn=None, depth=0):
     if t == "phi":
         return "phi(%s)" % " | ".join(show(p, fn, depth + 1) for p in e[1])
     return repr(e)
+
+
+def resolve_captures(expr, closure_fn, copies=True):
+    """Replace captured-variable reads inside a closure body (`field(_, name, "{closure}")`) by
+    the provenance of the parent's local of that name."""
+    parent = closure_fn.facts.fns.get(closure_fn.parent)
+    if parent is None:
+        return expr
+    pv = Prov(parent, copies=copies)
+    names = {}
+    for l, (tix, name, user, mut) in enumerate(parent.locals):
+        if name and name not in names:
+            names[name] = l
+
+    def rec(e):
+        if not isinstance(e, tuple) or not e:
+            return e
+        if e[0] == "field" and e[3] == "{closure}":
+            base = e[2].split("__")[0] if e[2] else e[2]
+            # captured places print as `var` or `var.field`; take the variable
+            var = (e[2] or "").replace("_ref__", "").split(".")[0]
+            for cand in (e[2], var, base):
+                if cand in names:
+                    return pv.local(names[cand])
+            return e
+        return tuple(rec(x) if isinstance(x, tuple) else x for x in e)
+    return rec(expr)
